@@ -263,6 +263,19 @@ def table_u(facts, rep, w, rule="R09.1", only=None):
             rep.ob(rule, b.id, "%s: the served entry is the one re-timed" % op, ok, "" if ok else
                    "%s goes to the upper path without copy-up or an upper-exists guard: for a file served from a lower "
                    "layer the call fails with not-found although the overlay shows the file" % op, s.line)
+        # the setter's answer is the answer of that call: no Ok that was decided otherwise ("only in a lower layer: nothing to do")
+        bad_ok = []
+        for ct, _, rbb in ov.inter.ret_cases(b):
+            if ov.inter.case_polarity(ct) == "err":
+                continue
+            t_ = passthrough_of(norm(ct))
+            while t_[0] == "await":
+                t_ = t_[1]
+            if not (t_[0] == "call" and isinstance(t_[1], str) and sname(t_[1]) == op):
+                bad_ok.append(fmt(norm(ct))[:70])
+        n += 1
+        rep.ob(rule, b.id, "%s: answers with the write layer's %s result" % (op, op), not bad_ok, "" if not bad_ok else
+               "%s can return %s: success is reported although no layer stored the value" % (op, bad_ok[0]), b.span)
         # a setter that materialises an upper copy (copy-up) replaces the served entry by a fresh one: the other
         # timestamps must be carried over from the entry served before, else they change with the call
         own = lambda c: not (c.impl and c.impl["self_ty"] == w.overlay)
